@@ -10,7 +10,7 @@ PLAN = {
 }
 DEADLINE = {'quick': 200, 'thorough': 3300}
 PROBES = ['solution-file-rewritten-over-older-one', 'store-reused-after-edit', 'line-reattempted', 'partial-solution-checked', 'prompt-interleaved-with-computation']
-ORACLES = {'H1', 'H2', 'C03.model', 'C03.stored'}
+ORACLES = {'H1', 'H2', 'C03.model', 'C03.stored', 'C03.final'}
 ASSUMPTIONS = [
     'synthetic world: the model re-derives every value with its own interpreter context, name qualification and rounding',
     'shipped world: re-evaluation uses the line definitions themselves (the statement\'s own criterion); a wrong definition is invisible here',
@@ -29,8 +29,42 @@ def eval_cli_solution(case, acc=None):
     pre = case.get('prelude')
     if pre:
         simrun.execute_cli(pre, {'prompt': True, 'writeback': False, 'solution': True})
-    run = simrun.execute_cli(case, {'prompt': True, 'writeback': False, 'solution': True, 'keep_old_solution': bool(pre)})
+    run = simrun.execute_cli(case, {'prompt': True, 'writeback': bool(case.get('writeback')), 'solution': True,
+                                    'keep_old_solution': bool(pre)})
     fs = []
+    if case.get('writeback') and run.file_after is not None and run.outcome in ('solved', 'failed'):
+        # "the final inputs": what the input file holds when the command is done must still denote the values the solution
+        # was computed from (read through the input's own definition, on a fresh object)
+        from .. import crash, synth
+        try:
+            import configparser as _cp
+            cfg_ = _cp.ConfigParser()          # as the next `habutax solve` will read it
+            cfg_.read_string(run.file_after)
+            after = {(sec, k): cfg_.get(sec, k) for sec in cfg_.sections() for k in cfg_[sec]}
+        except Exception:
+            after = None
+        if after is not None:
+            enums = synth.build_enums(case['world'])
+            for (sec, key), txt in sorted(after.items()):
+                q = f'{sec}.{key}'
+                p_ = case['persona'].get(q)
+                spec = simrun.input_spec_of(case['world'], q)
+                if p_ is None or spec is None or p_.get('invalid') or p_.get('stray'):
+                    continue
+                inp = synth._make_input(spec, enums)
+                try:
+                    if not inp.valid(p_['text']) or not inp.valid(txt):
+                        continue
+                    a, b = core.norm(inp.value(p_['text'])), core.norm(inp.value(txt))
+                except Exception:
+                    continue
+                if a != b:
+                    fs.append(simrun.F(ID, 'C03.final', 'inputs-rewritten',
+                                       f'{q} was supplied as {p_["text"]!r} ({a}); the input file now says {txt!r} ({b}): the solution '
+                                       f'is no longer what the final inputs yield'))
+                    break
+        if acc is not None:
+            acc.count('fault:inputs-written-back')
     if run.outcome in ('solved', 'failed') and run.solution_file is not None:
         r1 = simrun.model_for(case, run)
         try:
@@ -108,6 +142,7 @@ def run_one(engine, seed, acc, tier):
         pre['prompt'] = True
         pre['refuse_at'] = None
         case['prelude'] = pre
+        case['writeback'] = rng.chance(0.5)
     for f in evaluate(case, engine, acc):
         acc.violation(base.violation(ID, f, case, seed, engine))
 
